@@ -133,11 +133,11 @@ def int_lit(rng, v):
     return "0o" + oct(v)[2:]
 
 
-def int_expr(rng, v, scope):
+def int_expr(rng, v, scope, prefer_name=False):
     """tokens and identifier events of an expression with integer value v >= 0; scope: constants visible here {name: int}"""
     cands = [n for n, x in scope.items() if type(x) is int and x == v]
     r = rng.random()
-    if cands and r < 0.35:
+    if cands and (r < 0.35 or prefer_name):
         return [[rng.choice(cands), "o"]], ["i"]
     if r < 0.6 or v == 0:
         return [[int_lit(rng, v), "o"]], []
@@ -200,7 +200,12 @@ def gen_type(rng, scope, budget):
     cap = rng.choice([1, 1, 2, 3, 4, 5, 8, 16, 255, 256, rng.randrange(1, 300)])
     cap = max(1, min(cap, budget))
     written = cap + 1 if form == "excl" else cap
-    et, eev = int_expr(rng, written, scope)
+    named = [x for x in scope.values() if type(x) is int and (2 if form == "excl" else 1) <= x <= budget]
+    by_name = bool(named) and rng.random() < 0.5      # the capacity is a constant of this section
+    if by_name:
+        written = rng.choice(named)
+        cap = written - 1 if form == "excl" else written
+    et, eev = int_expr(rng, written, scope, prefer_name=by_name)
     toks = toks + [["[", "o"]] + ([["<=", "o"]] if form == "incl" else [["<", "o"]] if form == "excl" else []) + et + [["]", "o"]]
     ebits = ((bits + 7) // 8 * 8 if sc[0] == "ref" else bits)
     return toks, {"sc": sc, "arr": [form, written]}, ev + eev, cap * ebits + 64 + 16
@@ -218,9 +223,14 @@ def fresh(rng, used, heads):
             return n
 
 
-def gen_const(rng, scope, used):
-    name = fresh(rng, used, CONST_HEADS)
-    k = rng.choice(["uint", "uint", "int", "float", "bool", "char"])
+def gen_const(rng, scope, used, name=None, avoid=None):
+    """name/avoid: reuse the name of a constant of the request section with a different value (response only)"""
+    forced = name is not None
+    if forced:
+        used.add(name.lower())
+    else:
+        name = fresh(rng, used, CONST_HEADS)
+    k = rng.choice(["uint", "uint", "int"]) if forced else rng.choice(["uint", "uint", "int", "float", "bool", "char"])
     if k == "char":
         ch = rng.choice("abcXYZ09 ~")
         q = rng.choice("'\"")
@@ -255,7 +265,25 @@ def gen_const(rng, scope, used):
         sc, ev = [k, w, cast], []
         lo, hi = (0, 2 ** w - 1) if k == "uint" else (-(2 ** (w - 1)), 2 ** (w - 1) - 1)
         val = rng.choice([lo, hi, 0, 1, min(hi, 5), rng.randrange(lo, hi + 1), rng.randrange(max(lo, -50), min(hi, 50) + 1)])
-        if val < 0:
+        while forced and val == avoid:
+            val = rng.randrange(max(lo, 0), min(hi, 300) + 1)
+        ints = [n for n, x in scope.items() if type(x) is int and lo <= x <= hi]
+        derived = None
+        if ints and rng.random() < 0.4:
+            # the initialiser is computed from an earlier constant of the same section
+            n0 = rng.choice(ints)
+            d = rng.randrange(0, 10)
+            m = rng.choice([2, 3, 10, 1000])
+            if rng.random() < 0.5 and lo <= scope[n0] * m <= hi:
+                derived = (scope[n0] * m, [[n0, "o"], ["*", "o"], [int_lit(rng, m), "o"]])
+            elif lo <= scope[n0] + d <= hi:
+                derived = (scope[n0] + d, [[n0, "o"], ["+", "o"], [int_lit(rng, d), "o"]])
+            if derived and forced and derived[0] == avoid:
+                derived = None
+        if derived:
+            val = derived[0]
+            expr, eev = derived[1], ["i"]
+        elif val < 0:
             if val == lo and rng.random() < 0.5:
                 expr, eev = [["-", "o"], ["(", "o"], ["2", "o"], ["**", "o"], [str(w - 1), "o"], [")", "o"]], []
             else:
@@ -323,11 +351,13 @@ def gen_comment(rng):
     return rng.choice(["", " "]) + "".join(rng.choice("abc xyz_09#.") for _ in range(rng.randrange(0, 12)))
 
 
-def gen_section(rng, response, tier):
-    """statements of one schema, in order"""
+def gen_section(rng, response, tier, shadow=None, out_scope=None):
+    """statements of one schema, in order.  shadow: integer constants of the request section {name: value}; the response
+    re-declares some of them with other values (identifier lookup must not cross the service boundary)"""
     union = rng.random() < 0.3
     scope = {}
     used = set()
+    shadow = dict(shadow or {})
     n = rng.choice([0, 1, 2, 2, 3, 4, 5, 6]) if tier == "quick" else rng.choice([0, 1, 2, 3, 4, 6, 9, 12])
     kinds = []
     for _ in range(n):
@@ -359,7 +389,12 @@ def gen_section(rng, response, tier):
             bound += w
             nfields_left -= 1
         else:
-            st, name, val = gen_const(rng, scope, used)
+            free = [n for n in shadow if n.lower() not in used]
+            if free and rng.random() < 0.6:
+                n0 = rng.choice(free)
+                st, name, val = gen_const(rng, scope, used, name=n0, avoid=shadow[n0])
+            else:
+                st, name, val = gen_const(rng, scope, used)
             sts.append(st)
             scope[name] = val
         # asserts and prints in between
@@ -389,6 +424,8 @@ def gen_section(rng, response, tier):
         first_attr += 1
     if not response and rng.random() < 0.25:
         sts.insert(rng.randrange(0, first_attr + 1), directive("deprecated"))
+    if out_scope is not None:
+        out_scope.update({n: x for n, x in scope.items() if type(x) is int})
     return sts
 
 
@@ -411,11 +448,12 @@ def weave(rng, sts, lines):
 
 def gen_case(rng, tier):
     lines = []
-    weave(rng, gen_section(rng, False, tier), lines)
+    req_scope = {}
+    weave(rng, gen_section(rng, False, tier, out_scope=req_scope), lines)
     if rng.random() < 0.3:
         marker = {"toks": [[rng.choice(["---", "---", "----", "-" * 30]), "o"]], "pre": [], "extra": 0, "act": {"k": "marker"}}
         lines.append({"s": marker, "b": rng.random() < 0.3, "c": gen_comment(rng) if rng.random() < 0.4 else None})
-        weave(rng, gen_section(rng, True, tier), lines)
+        weave(rng, gen_section(rng, True, tier, shadow=req_scope), lines)
     if not lines:
         lines.append({"s": None, "b": False, "c": None})
     return {"lines": lines, "seed": rng.randrange(0, 2 ** 32)}
@@ -451,6 +489,19 @@ def targeted():
     out.append([L(directive("deprecated"), c=" x"), L(directive("union")), L(fld("a")), L(fld("b")),
                 L(directive("extent", ["i", 64], [["64", "o"]]))])
     out.append([L(sealed)])
+    # seeded C03-r2-2: the response re-declares a constant of the request with another value and uses it in an initialiser,
+    # an array capacity and an assertion - identifier lookup must not cross the service boundary
+    def cst(ty, w, name, toks, val, pre):
+        return {"toks": [[ty, "m"], [name, "o"], ["=", "o"]] + toks, "pre": ["i"] + pre, "extra": 0,
+                "act": {"k": "const", "ty": {"sc": ["uint", w, "d"], "arr": None}, "name": name, "val": str(val)}}
+    arr = {"toks": [["uint8", "o"], ["[", "o"], ["<=", "o"], ["TIMEOUT_SEC", "o"], ["]", "m"], ["data", "o"]], "pre": ["i", "i"], "extra": 0,
+           "act": {"k": "field", "ty": {"sc": ["uint", 8, "d"], "arr": ["incl", 30]}, "name": "data"}}
+    chk = {"toks": [["@", "n"], ["assert", "m"], ["TIMEOUT_SEC", "o"], ["==", "o"], ["30", "o"]], "pre": ["i", "i"], "extra": 0,
+           "act": {"k": "dir", "d": "assert", "g": ["b", True], "shown": "true"}}
+    out.append([L(cst("uint8", 8, "TIMEOUT_SEC", [["2", "o"]], 2, [])), L(sealed), L(marker),
+                L(cst("uint8", 8, "TIMEOUT_SEC", [["30", "o"]], 30, [])),
+                L(cst("uint16", 16, "TIMEOUT_MSEC", [["TIMEOUT_SEC", "o"], ["*", "o"], ["1000", "o"]], 30000, ["i"])),
+                L(arr), L(chk), L(sealed)])
     return [{"lines": ls, "seed": 7 + i} for i, ls in enumerate(out)]
 
 
@@ -838,11 +889,32 @@ def describe(case, obs):
 
 
 def shrink(case):
+    """smaller VALID definitions only (a replay must fail for the defect, not because shrinking broke the definition):
+    a constant that is referred to elsewhere stays, unions keep their variants"""
     lines = case["lines"]
+    sect = []            # section number of every line
+    k = 0
+    for ln in lines:
+        sect.append(k)
+        if ln["s"] is not None and ln["s"]["act"]["k"] == "marker":
+            k += 1
+    unions = {sect[i] for i, ln in enumerate(lines) if ln["s"] is not None and ln["s"]["act"]["k"] == "dir" and ln["s"]["act"]["d"] == "union"}
     for i in range(len(lines)):
         st = lines[i]["s"]
-        if st is None or st["act"]["k"] in ("field", "pad", "const") or (st["act"]["k"] == "dir" and st["act"]["d"] in ("print", "assert")):
-            # dropping a constant may orphan a reference; such candidates fail to read and are rejected by the pipeline
+        if st is None:
+            continue
+        a = st["act"]
+        if a["k"] == "const":
+            if any(t == a["name"] for j, ln in enumerate(lines) if j != i and ln["s"] is not None for t, _ in ln["s"]["toks"]):
+                continue
+        elif a["k"] == "field":
+            if sect[i] in unions:
+                continue
+        elif not (a["k"] == "pad" or (a["k"] == "dir" and a["d"] in ("print", "assert"))):
+            continue
+        yield {"lines": lines[:i] + lines[i + 1:], "seed": case["seed"]}
+    for i in range(len(lines)):
+        if lines[i]["s"] is None and len(lines) > 1:
             yield {"lines": lines[:i] + lines[i + 1:], "seed": case["seed"]}
     for i in range(len(lines)):
         if lines[i]["c"] is not None:
